@@ -395,3 +395,251 @@ func GenValueText(r *rand.Rand, depth int) string {
 	}
 	return "Foo{" + words[r.Intn(len(words))] + " => " + sub() + "}"
 }
+
+// ---- the modelled fragment of types (twin of lean/Pcore/Model/Types.lean) ---------------------------------------------
+
+var fragPlain = []string{"Any", "Unit", "Undef", "Default", "Scalar", "ScalarData", "Numeric", "Data", "RichData", "Binary", "Float", "String",
+	"Callable", "Struct", "Timespan", "Timestamp", "SemVer", "SemVerRange", "URI", "Runtime", "Object", "Init", "TypeSet", "Tuple",
+	"Integer", "Boolean", "Enum", "Regexp", "Pattern", "Variant", "Array", "Hash", "Collection", "Optional", "NotUndef", "Type", "Sensitive", "Iterable", "Iterator"}
+
+var fragRegexps = []string{"/a/", "/^a.*$/", "/a\\/b/", "/[a-z]+/", "/\\d+/", "/a|b/", "/\\\\/", "//", "/\\Aab\\z/", "/ /", "/'/"}
+
+func fragSize(r *rand.Rand) (int64, int64) {
+	lo := int64(r.Intn(4))
+	if r.Intn(6) == 0 {
+		lo = BoundaryInts[r.Intn(len(BoundaryInts))]
+	}
+	if lo == math.MinInt64 {
+		lo++
+	}
+	hi := lo + int64(r.Intn(5))
+	if hi < lo || r.Intn(3) == 0 {
+		hi = math.MaxInt64
+	}
+	return lo, hi
+}
+
+// fragSizeText renders a size constraint in one of the accepted surface forms ("" = none)
+func fragSizeText(r *rand.Rand, allowTypeForm bool) string {
+	lo, hi := fragSize(r)
+	los, his := intText(r, lo), intText(r, hi)
+	if lo < 0 {
+		los = strconv.FormatInt(lo, 10)
+	}
+	switch r.Intn(6) {
+	case 0:
+		if hi == math.MaxInt64 {
+			return los
+		}
+	case 1:
+		if hi == math.MaxInt64 {
+			return los + ", default"
+		}
+	case 2:
+		if lo == 0 {
+			return "default, " + his
+		}
+	case 3:
+		if allowTypeForm {
+			return "Integer[" + los + ", " + his + "]"
+		}
+	}
+	return los + ", " + his
+}
+
+func fragString(r *rand.Rand) string {
+	// a quoted string in the text: any content the simple quoting of the text generators can carry
+	s := GenString(r)
+	s = strings.Map(func(c rune) rune {
+		if c == '\n' || c == 0 || c == '\ufffd' || c == '\r' || c == '\t' || c < 0x20 {
+			return 'x'
+		}
+		return c
+	}, s)
+	return s
+}
+
+// GenFragType draws a type expression of the modelled fragment, valid by construction, in varied surface forms.
+func GenFragType(r *rand.Rand, depth int) string {
+	if depth <= 0 || r.Intn(4) == 0 {
+		return fragPlain[r.Intn(len(fragPlain))]
+	}
+	sub := func() string { return GenFragType(r, depth-1) }
+	switch r.Intn(20) {
+	case 0, 1:
+		lo, hi := fragSize(r)
+		if r.Intn(4) == 0 {
+			lo = -lo
+			if hi < lo {
+				hi = math.MaxInt64
+			}
+		}
+		switch r.Intn(5) {
+		case 0:
+			return "Integer[" + intText(r, lo) + "]"
+		case 1:
+			return "Integer[default, " + intText(r, hi) + "]"
+		case 2:
+			return "Integer[" + strconv.FormatInt(lo, 10) + ", default]"
+		case 3:
+			return "Integer[default]"
+		}
+		return "Integer[" + strconv.FormatInt(lo, 10) + ", " + intText(r, hi) + "]"
+	case 2:
+		lo, hi := fragSize(r)
+		if lo < 0 {
+			lo, hi = 0, math.MaxInt64
+		}
+		switch r.Intn(3) {
+		case 0:
+			return "String[" + sq(fragString(r)) + "]"
+		case 1:
+			if lo > 0 && hi >= 2 {
+				lo -= int64(r.Intn(3)) // a negative minimum is clamped to 0
+			}
+			return "String[Integer[" + strconv.FormatInt(lo, 10) + ", " + intText(r, hi) + "]]"
+		}
+		if hi == math.MaxInt64 || r.Intn(2) == 0 {
+			return "String[" + intText(r, lo) + "]"
+		}
+		return "String[" + intText(r, lo) + ", " + intText(r, hi) + "]"
+	case 3:
+		return "Boolean[" + []string{"true", "false"}[r.Intn(2)] + "]"
+	case 4, 5:
+		n := 1 + r.Intn(3)
+		xs := make([]string, n)
+		for i := range xs {
+			if r.Intn(2) == 0 {
+				xs[i] = words[r.Intn(len(words))]
+			} else {
+				xs[i] = sq(fragString(r))
+			}
+		}
+		flag := ""
+		if r.Intn(3) == 0 {
+			flag = []string{", true", ", false"}[r.Intn(2)]
+			for i := range xs {
+				if !isASCII(xs[i]) {
+					xs[i] = "'Ab'"
+				}
+			}
+		}
+		switch r.Intn(3) {
+		case 0:
+			return "Enum[[" + strings.Join(xs, ", ") + "]" + flag + "]"
+		case 1:
+			if flag == "" {
+				return "Enum[[" + strings.Join(xs, ", ") + "]]"
+			}
+		}
+		return "Enum[" + strings.Join(xs, ", ") + flag + "]"
+	case 6:
+		if r.Intn(3) == 0 {
+			return "Regexp['a+b']"
+		}
+		return "Regexp[" + fragRegexps[r.Intn(len(fragRegexps))] + "]"
+	case 7:
+		n := 1 + r.Intn(3)
+		xs := make([]string, n)
+		for i := range xs {
+			switch r.Intn(3) {
+			case 0:
+				xs[i] = "'a.*" + words[r.Intn(len(words))] + "'"
+			case 1:
+				xs[i] = "Regexp[" + fragRegexps[r.Intn(len(fragRegexps))] + "]"
+			default:
+				xs[i] = fragRegexps[r.Intn(len(fragRegexps))]
+			}
+		}
+		if r.Intn(4) == 0 {
+			return "Pattern[[" + strings.Join(xs, ", ") + "]]"
+		}
+		return "Pattern[" + strings.Join(xs, ", ") + "]"
+	case 8, 9, 10:
+		k := []string{"Optional", "NotUndef", "Type", "Sensitive", "Iterable", "Iterator"}[r.Intn(6)]
+		if (k == "Optional" || k == "NotUndef") && r.Intn(3) == 0 {
+			return k + "[" + sq(fragString(r)) + "]"
+		}
+		return k + "[" + sub() + "]"
+	case 11, 12:
+		n := 1 + r.Intn(3)
+		xs := make([]string, n)
+		for i := range xs {
+			xs[i] = sub()
+		}
+		if r.Intn(4) == 0 {
+			return "Variant[[" + strings.Join(xs, ", ") + "]]"
+		}
+		return "Variant[" + strings.Join(xs, ", ") + "]"
+	case 13, 14, 15:
+		switch r.Intn(5) {
+		case 0:
+			return "Array[" + sub() + "]"
+		case 1:
+			return "Array[" + fragSizeText(r, true) + "]"
+		case 2:
+			return "Array[" + []string{"0, 0", "Unit, 0, 0", "Any, 0, 0", "Any", "Any, 0, default", "String, 0, 0"}[r.Intn(6)] + "]"
+		}
+		return "Array[" + sub() + ", " + fragSizeText(r, true) + "]"
+	case 16, 17, 18:
+		switch r.Intn(5) {
+		case 0:
+			return "Hash[" + sub() + ", " + sub() + "]"
+		case 1:
+			lo, hi := fragSize(r)
+			return "Hash[" + intText(r, lo) + ", " + intText(r, hi) + "]"
+		case 2:
+			return "Hash[" + []string{"0, 0", "Unit, Unit, 0, 0", "Any, Any", "Any, Any, 0, default", "default, default", "1, 2, 3", "1, 2, 3, 4", "String, String, 0, 0"}[r.Intn(8)] + "]"
+		}
+		return "Hash[" + sub() + ", " + sub() + ", " + fragSizeText(r, true) + "]"
+	}
+	switch r.Intn(6) {
+	case 0:
+		return "Collection[default]"
+	case 1, 2, 3:
+		n := r.Intn(4)
+		xs := make([]string, n)
+		for i := range xs {
+			xs[i] = sub()
+		}
+		lo, hi := fragSize(r)
+		if lo < 0 {
+			lo, hi = 0, math.MaxInt64
+		}
+		his := strconv.FormatInt(hi, 10)
+		if hi == math.MaxInt64 && r.Intn(2) == 0 {
+			his = "default"
+		}
+		switch r.Intn(6) {
+		case 0:
+			if n > 0 {
+				return "Tuple[" + strings.Join(xs, ", ") + "]"
+			}
+		case 1:
+			if n > 0 {
+				return "Tuple[[" + strings.Join(xs, ", ") + "]]"
+			}
+		case 2:
+			if n > 0 && int64(n) >= lo {
+				return "Tuple[" + strings.Join(xs, ", ") + ", " + strconv.FormatInt(lo, 10) + "]"
+			}
+		case 3:
+			if hi != math.MaxInt64 || int64(n) >= lo {
+				return "Tuple[[" + strings.Join(xs, ", ") + "], Integer[" + strconv.FormatInt(lo, 10) + ", " + strconv.FormatInt(hi, 10) + "]]"
+			}
+		case 4:
+			return "Tuple[" + []string{"0, 0", "0, default", "default", "5", "0, 1", "[]", "[], Integer[0, 0]", "Any, 0, 0", "Unit"}[r.Intn(9)] + "]"
+		}
+		return "Tuple[" + strings.Join(append(xs, strconv.FormatInt(lo, 10), his), ", ") + "]"
+	}
+	return "Collection[" + fragSizeText(r, true) + "]"
+}
+
+func isASCII(s string) bool {
+	for _, c := range s {
+		if c >= 0x80 {
+			return false
+		}
+	}
+	return true
+}
